@@ -8,6 +8,7 @@ import re
 import common
 import pipe_common
 
+LUT_RE = re.compile(r"op (\d+) LUT: byte (\d+) of region (\d+): expected tensor 0 delta (-?\d+), found")
 STALE_RE = re.compile(r"op (\d+) (IFM2?): byte (\d+) of region (\d+): expected tensor (\d+) delta (-?\d+), found (?:tensor (\d+) delta (-?\d+)|undefined)")
 
 
@@ -21,6 +22,16 @@ def classify_tagged(msg, metas):
     nor sufficient."""
     import c10_lib
 
+    ml = LUT_RE.search(msg)
+    if ml and int(ml.group(1)) < len(metas):
+        # lut.optimize_high_level_cmd_stream programs (address - window start) / 256 as table index when it places a table,
+        # but lut.get_lut_index(...) = offset / table size when an equal table is found present again: for the 1 KiB
+        # exponent table of an 8-bit SOFTMAX in the upper half of the window that is index 1 instead of 4, and the
+        # second SOFTMAX looks up in whatever lies 256 bytes into the window
+        meta = metas[int(ml.group(1))]
+        if meta.get("lut_bytes", 256) > 256 and meta.get("lut_offset", 0) > 0 and \
+                meta.get("lut_index") == meta["lut_offset"] // meta["lut_bytes"] != meta["lut_offset"] // 256:
+            return "lut-index-of-reused-wide-table-divided-by-table-size"
     m = STALE_RE.search(msg)
     if not m:
         return None
